@@ -37,6 +37,7 @@ type fnSpec struct {
 	retErr   bool     // Go function returns (T, error)
 	builtin  bool     // documented built-in (not registered by the check)
 	sig      bool     // member of the generated signature product (sig_test.go)
+	exprlib  bool     // built-in of the expression library that is not a template function (exprlib_test.go)
 	shared   bool     // built-in that conditions/operators can also call today (see finding C13-func-in-condition)
 	impl     any      // the Go function registered with vuego (nil for built-ins)
 	call     func(in []any) (any, error)
@@ -398,6 +399,7 @@ func init() {
 	registerPointerFuncs()
 	fnNames = append(fnNames, "addp", "fmtDate", "incp", "pname", "upp")
 	sort.Strings(fnNames)
+	registerExprLib() // after fnNames: never a pipe stage, never in the per-function error enumeration
 	// the signature product (sig_test.go) is generated by its own family and is not part of
 	// fnNames (random pipe stages, per-function error enumeration)
 	registerSignatures()
